@@ -193,7 +193,6 @@ Qed.
    exporter state (sequence number, templates) is what it was. *)
 Theorem refresh_messages widths t : forall m st ss,
   st_wf st -> Forall tpl_entry_ok m -> (forall p, In p m -> In p (x_tpls st)) ->
-  NoDup (map fst (x_tpls st)) ->
   make_sets m = Ok ss ->
   let xs := send_all cur st ss t in
   exists k,
@@ -201,7 +200,7 @@ Theorem refresh_messages widths t : forall m st ss,
             (firstn k m) xs /\
     (Forall (fun x => exists n, r_res x = Ok n) xs -> k = length m /\ last_state st xs = st).
 Proof.
-  induction m as [|[id [ies ml]] r IH]; intros st ss W F Sub ND Hm xs.
+  induction m as [|[id [ies ml]] r IH]; intros st ss W F Sub Hm xs.
   - cbn [make_sets] in Hm. injection Hm as <-. exists 0%nat. split; [constructor|]. auto.
   - cbn [make_sets] in Hm.
     destruct (make_template_set id ies) as [s| | |] eqn:Es; cbn [obind] in Hm; try discriminate.
@@ -217,7 +216,7 @@ Proof.
         assert (Hin : In (id, (ies, ml)) (x_tpls st)) by (apply Sub; now left).
         unfold lookup_tpl. destruct (find (fun p => fst p =? id) (x_tpls st)) as [q|] eqn:Ef; [eauto|].
         exfalso. apply (find_none _ _ Ef) in Hin. cbn [fst] in Hin. now rewrite N.eqb_refl in Hin. }
-      rewrite Est. destruct (IH st ss' W F' (fun p Hp => Sub p (or_intror Hp)) ND eq_refl) as (k & F2 & Hall).
+      rewrite Est. destruct (IH st ss' W F' (fun p Hp => Sub p (or_intror Hp)) eq_refl) as (k & F2 & Hall).
       exists (S k). cbn [firstn]. split; [constructor; [exact M1|exact F2]|].
       intros Fa. inversion Fa as [|? ? _ Fa']; subst. destruct (Hall Fa') as [-> L]. split; [reflexivity|].
       unfold last_state in *. cbn [rev].
@@ -228,4 +227,45 @@ Proof.
       intros Fa. inversion Fa as [|? ? [n Hn'] _]; subst. congruence.
     + exists 1%nat. cbn [firstn]. split; [constructor; [exact M1|constructor]|].
       intros Fa. inversion Fa as [|? ? [n Hn'] _]; subst. congruence.
+Qed.
+
+(* ---- whole histories ---- *)
+(* what C02 says of one step of an object-level history: a SendSet that writes a message for a
+   set in scope writes a well-formed one (the set is the one SendSet saw: whatever was done to
+   the set object and to the element objects before); a refresh of a UDP exporter whose
+   registered templates are in scope writes, for a prefix of the template map in the model's
+   order (all of it if no send fails), one well-formed template message each, and leaves the
+   exporter state as it was *)
+Definition out_wellformed (widths : N -> option (list N)) (o : gout) : Prop :=
+  match o with
+  | OSent st s t x =>
+      forall bytes, r_wire x = Some bytes -> c02_scope_m widths s ->
+      exists body, expected_body s = Some body /\
+        rfc_parse widths bytes =
+          Some (mkWM 10 (blen bytes) (t mod 2 ^ 32) (seq_next (x_seq st) s mod 2 ^ 32) (x_obs st mod 2 ^ 32)
+                     (hdr_id s) (blen bytes - 16) body)
+  | ORefresh st t rr =>
+      x_udp st = true -> Forall tpl_entry_ok (x_tpls st) ->
+      forall xs, rr = Ok xs ->
+      exists k,
+        Forall2 (fun p x => forall bytes, r_wire x = Some bytes ->
+                            refresh_msg_ok widths st t (fst p) (fst (snd p)) bytes)
+                (firstn k (x_tpls st)) xs /\
+        (Forall (fun x => exists n, r_res x = Ok n) xs -> k = length (x_tpls st) /\ last_state st xs = st)
+  | OReconn _ _ => True
+  end.
+
+Theorem histories_wellformed widths h : forall w,
+  WInv w -> Forall (out_wellformed widths) (grun cur w h).
+Proof.
+  intros w HW. pose proof (grun_inv h w HW) as F.
+  induction F as [|o l O _ IH]; constructor; [|exact IH].
+  destruct o as [st s t x|st t rr|st q]; cbn [out_ok out_wellformed] in *.
+  - destruct O as (HI & RS & Wst & ->). intros bytes Hw Sc.
+    apply (wellformed_message_m widths st s t bytes HI (fun r Hr => proj1 (RS r Hr)) Wst Hw Sc).
+  - destruct O as (Wst & ->). intros U Ft xs E. rewrite U in E. unfold refresh in E.
+    destruct (make_sets (x_tpls st)) as [ss| | |] eqn:Em; cbn [obind] in E; try discriminate.
+    injection E as <-.
+    exact (refresh_messages widths t (x_tpls st) st ss Wst Ft (fun p Hp => Hp) Em).
+  - exact I.
 Qed.
